@@ -340,7 +340,7 @@ def signature(inst, problems):
         shape = f"{parts[1]}:{'zero' if parts[2] == '0' else 'positive'}"
     else:
         shape = "-"
-    return f"{op}|{shape}|{parts[-1]}|{problems[0][0]}"
+    return f"{op}|{shape}|{problems[0][0]}"
 
 
 def shard(part: core.Part, shard_i, nshards, tier, seed, deadline):
